@@ -18,7 +18,8 @@ EXPLANATION = (
     ' Fourth round: every rule that is not a unification schema (conjunction, punctuation, quote / bracket, the comma type-changing rules) yields its result exactly when its premises hold, judged as a decision function over its elementary tests (R3.4 decision).'
     ' Fifth round: the bindings reader replaces bound features as a whole and nothing else; every shared variable position is tested, independently of earlier bindings.'
     ' Sixth and seventh round: _is_type_raised as a truth table (R3.4); category texts hoisted into module-level Category.parse constants are read in place.'
-    " Eighth round: no rule kept from a loop reads the loop variable late (R3.5); z.functor(l, r) keeps z's own slash (R3.1).")
+    " Eighth round: no rule kept from a loop reads the loop variable late (R3.5); z.functor(l, r) keeps z's own slash (R3.1)."
+    ' Eleventh round: a category looked up in a set of texts is found by hash and restricts nothing (R3.3).')
 TRUSTED = ['CPython ast', 'schema table in sa/rules_grammar.py (from the property statement)', 'independent pattern parser sa/symcat.py']
 
 R = {'schema': 'R3.1', 'modifier': 'R3.2', 'restrict': 'R3.3', 'nonschema': 'R3.4', 'labels': 'R3.5', 'complete': 'R3.6'}
